@@ -12,7 +12,7 @@ variable {kd : Kind} {res : Key → Res}
 def rank (g : Glob) (th : Thread) : Nat :=
   match th.pc with
   | .idle => 0
-  | .lGet => 12 | .lTest => 11 | .lAlloc => 10 | .lInit => 9 | .lSetdef => 8 | .lAcq => 7
+  | .lAcq => 13 | .lGet => 12 | .lTest => 11 | .lAlloc => 10 | .lInit => 9 | .lSdRead => 8 | .lSdWrite => 7
   | .xTouch => 6 | .xLen => 5 | .xEvict => 4 | .xRel => 3 | .xRet => 2
   | .gAcq => 16 | .gGet => 15 | .gTest => 14 | .gAlloc => 13 | .gInit => 12 | .gCheck => 11 | .gStore => 10
   | .gRelE => 3 | .gRetE => 2
